@@ -2,5 +2,5 @@
 EXTENDS LangGen
 MCP == [names |-> {"x"}, funs |-> {}, arity |-> <<>>, ty |-> "num",
         kinds |-> {"make", "set", "shout", "if", "else", "loop", "brk", "cont", "block"},
-        ops |-> {"add"}, maxStmts |-> atoi(IOEnv.MAXSTMTS), minStmts |-> 2, maxDepth |-> atoi(IOEnv.MAXDEPTH), fuel |-> 600, events |-> atoi(IOEnv.EVENTS)]
+        prelude |-> <<>>, preDecl |-> {}, ops |-> {"add"}, maxStmts |-> atoi(IOEnv.MAXSTMTS), minStmts |-> 2, maxDepth |-> atoi(IOEnv.MAXDEPTH), fuel |-> 600, events |-> atoi(IOEnv.EVENTS)]
 ====
